@@ -15,6 +15,8 @@ MEM_KB = int(os.environ.get('VERIF_CBMC_MEM_KB', str(18 * 1024 * 1024)))
 
 # failed-check categories that are tool artefacts rather than refutations
 UNSUPPORTED_CATS = {'unsupported_construct'}
+# CBMC's NaN-generation checks ('NaN on multiplication' ...): producing a NaN is not a Rust failure (no panic, no UB)
+IGNORED_CATS = {'NaN'}
 
 
 class KaniOutcome:
@@ -86,8 +88,8 @@ def run(repo, tag, harnesses, jobs=4, harness_timeout=900, total_timeout=None, e
         return out
     js = json.load(open(js_path))
     results = {r['harness_id']: r for r in js.get('verification_results', {}).get('results', [])}
-    pdet = {r['harness_id']: r['property_details'] for r in js.get('property_details', [])}
-    cstats = {r['harness_id']: r.get('cbmc_stats', {}) for r in js.get('cbmc', [])}
+    pdet = {r['harness_id']: (r.get('property_details') or {}) for r in js.get('property_details', [])}
+    cstats = {r['harness_id']: (r.get('cbmc_stats') or {}) for r in js.get('cbmc', [])}
     for h in harnesses:
         hid = h['id']
         ob = {'name': 'kani:' + hid.replace('::verif_kani::', '::'), 'backend': 'kani-cbmc(cadical)',
@@ -107,15 +109,16 @@ def run(repo, tag, harnesses, jobs=4, harness_timeout=900, total_timeout=None, e
         ob['checks'] = pd.get('total_properties', 0)
         ob['covers_satisfied'] = pd.get('satisfied', 0)
         ob['covers_unsat'] = pd.get('unsatisfiable', 0)
-        checks = r.get('checks', [])
-        failed = [c for c in checks if c.get('status') in ('Failure', 'FAILURE', 'Failed')]
+        checks = r.get('checks') or []
+        failed = [c for c in checks if c.get('status') in ('Failure', 'FAILURE', 'Failed') and c.get('category') not in IGNORED_CATS]
+        ignored_n = sum(1 for c in checks if c.get('status') in ('Failure', 'FAILURE', 'Failed') and c.get('category') in IGNORED_CATS)
         undet = [c for c in checks if c.get('status') in ('Undetermined', 'UNDETERMINED')]
         if ignore_checks:
             failed = [c for c in failed if not any(re.search(pat, (c.get('description') or '') + ' ' + (c.get('function') or '')) for pat in ignore_checks.get(hid, []))]
         real_fail = [c for c in failed if c.get('category') not in UNSUPPORTED_CATS]
         unsup_fail = [c for c in failed if c.get('category') in UNSUPPORTED_CATS]
         status = r.get('status')
-        if status == 'Success' and not failed:
+        if (status == 'Success' or (ignored_n and not undet and checks)) and not failed:
             if ob['covers_unsat']:
                 ob['status'] = 'undecided'
                 ob['detail'] = 'vacuity: %d cover properties unsatisfiable' % ob['covers_unsat']
